@@ -19,10 +19,12 @@ DECLINED = ["'picks some other running stream when one exists' beyond the reject
             "exactly-once callback over repeated / overwritten requests (histories)"]
 ASSUMPTIONS = ["C14 for the unit re-association performed by ABTI_thread_set_associated_pool"]
 RULES_DOC = dict(common.SHARED_DOC)
+RULES_DOC["X8"] = common.X8_DOC
 RULES_DOC["R6"] = "= C12.R4: revive clears every pending request (a migration request that was never served does not survive into the revived run)"
 RULES_DOC["X4"] = common.X4_DOC
 RULES_DOC["R7"] = "= C06.R1/R3/R4: a unit that migrates inside a switch is counted on the right pool before and after (the migration target can be joined)"
 RULES_DOC["R8"] = "migrate_to_sched / migrate_to_xstream reject a unit that already is in ANY pool of the target scheduler: the comparison with the unit's pool sits inside a loop over the scheduler's pools (sibling agreement)"
+RULES_DOC["R10"] = "= C12.R12: the request dispatcher tests REQ_MIGRATE bitwise: a migration request is honoured although a join or cancel request is pending on the same unit"
 RULES_DOC["R9"] = "a migration callback given in the creation attribute is recorded whenever it is non-NULL (its installation depends on the callback pointer only, not on whether the unit is migratable yet -- migratability can be switched on later)"
 RULES_DOC.update({
     "R1": "thread_migrate_to_pool: target pool stored before REQ_MIGRATE is set; nothing set on the error path",
@@ -362,6 +364,7 @@ def rule_R8(P, rep):
     for fn in ("ABT_thread_migrate_to_sched", "ABT_thread_migrate_to_xstream"):
         F = P.fn(fn, "src/thread.c")
         found = False
+        why = "no comparison with ABTI_thread::p_pool inside a loop bounded by num_pools"
         for bid, B in F.blocks.items():
             if B.tc is None:
                 continue
@@ -372,12 +375,18 @@ def rule_R8(P, rep):
             # is this comparison evaluated once per pool of the scheduler?
             heads = [a for a, k in ctrldep.closure(F, bid) if F.blocks[a].tk in ("ForStmt", "WhileStmt", "DoStmt") and F.blocks[a].tc is not None
                      and "num_pools" in canon.cond(F, cfg.cond_atom(F, F.blocks[a].tc, True)[0])[0]]
-            if heads:
-                found = True
+            for a in heads:
+                # ... and is the pool it looks at the one the loop counter selects (pools[p] with `p < num_pools`)?
+                hl = canon.cond(F, cfg.cond_atom(F, F.blocks[a].tc, True)[0])[0]
+                m = re.match(r"^(.+?) (<|!=) ", hl)
+                ix = re.search(r"::pools\[([^\]]+)\]", lab)
+                if m and ix and not re.search(r"\b%s\b" % re.escape(m.group(1).strip()), ix.group(1)):
+                    why = "the comparison reads pools[%s] on every pass of the loop over `%s`" % (ix.group(1), hl)
+                else:
+                    found = True     # pools[<counter>], or a form that does not index the array by position
         sig[fn] = found
         rep.ob("R8", "%s compares the unit's pool with every pool of the target scheduler" % fn, found,
-               "no comparison with ABTI_thread::p_pool inside a loop bounded by num_pools", loc="%s:%d" % (F.file, F.line),
-               site="%s/all-pools" % fn)
+               why, loc="%s:%d" % (F.file, F.line), site="%s/all-pools" % fn)
 
 
 def rule_R9(P, rep):
@@ -402,6 +411,7 @@ def rule_R9(P, rep):
 
 
 def run(P, rep, tier):
+    common.rule_X8(P, rep)
     common.rule_X4(P, rep)
     common.run_shared(P, rep, which=("X2",))
     rule_R1(P, rep)
@@ -415,3 +425,4 @@ def run(P, rep, tier):
     common.borrow(rep, P, C06.rule_R2, "R7")
     rule_R8(P, rep)
     rule_R9(P, rep)
+    common.borrow(rep, P, C12.rule_R12, "R10")
